@@ -2,5 +2,6 @@ SPECIFICATION Spec
 CONSTANTS L = 3
  CLASSES = {"val", "id", "unit", "str", "sym", "pre", "suf", "bin", "acc", "pair", "comma", "cond", "else", "apply", "reapply", "and", "open", "close", "nopen", "nclose", "sopen", "sclose", "sep", "blankline", "term", "suflen", "prefixid", "infixid"}
  SEPS = {"blank", "none", "annot", "nl"}
+ BALANCED = FALSE
 INVARIANT Emit
 CHECK_DEADLOCK FALSE
